@@ -82,8 +82,9 @@ func selfTest() error {
 }
 
 type ctx struct {
-	o    *vrt.Obs
-	seen map[string]int
+	o        *vrt.Obs
+	seen     map[string]int
+	keptURLs []keptURL
 }
 
 func (c *ctx) violate(key, format string, a ...any) *vrt.Violation {
